@@ -18,7 +18,7 @@ TraceLog == ndJsonDeserialize("trace.ndjson")
 VARIABLES l, viol, fired
 vars == <<l, viol, fired>>
 
-NV == 4
+NV == 7      \* identities projected by the driver (v5, v7: removed validators, v6: created by a transaction)
 VoteKinds == {"prevote", "precommit", "nextindex", "certificate"}
 Clauses == {"HonestNeverSlashable", "RealEquivocationAccepted", "SlashedOnce", "PenaltyBounded", "BuilderEqualsValidator"}
 Paths == {"seal", "raw", "imp"}
@@ -77,7 +77,8 @@ Fail(e) ==
    \cup
    \* "Evidence of two different same-kind votes by one validator in one round/index is accepted by block builder and block
    \*  validator alike, penalises that validator"
-   { <<"RealEquivocationAccepted", {e.all[i].kind} \cup { p \in Paths : ~(PostOf(e, p).vals[e.all[i].target].expelled
+   { <<"RealEquivocationAccepted", {e.all[i].kind} \cup (IF e.pre.vals[e.all[i].target].exists THEN {} ELSE {"removed_since_lookback"})
+                                   \cup { p \in Paths : ~(PostOf(e, p).vals[e.all[i].target].expelled
                                                                             /\ PostOf(e, p).vals[e.all[i].target].status = 0
                                                                             /\ Taken(e.pre, PostOf(e, p), e.all[i].target) > 0) }, l>> :
         i \in { n \in DOMAIN e.all : RealEquivocation(e.all[n], e)
